@@ -1,5 +1,7 @@
-// Command extract regenerates the Lean 4 files ArtVerif/Gen/Node4.lean and
-// ArtVerif/Gen/Consts.lean from the Go sources of the go-art repository.
+// Command extract regenerates the Lean 4 files under ArtVerif/Gen/ from the
+// Go sources of the go-art repository: Node4.lean and Consts.lean
+// (translations) and the fact tables Clear.lean, Casts.lean, Effects.lean,
+// Layout.lean, Template.lean.
 //
 //	extract -repo /repo -out /verif/lean/ArtVerif/Gen
 //
@@ -10,7 +12,12 @@
 // methods.  Any construct outside the supported fragment is a hard error
 // (exit status 2): nothing is ever defaulted silently.
 //
-// Type checking is done offline on node4.go + node.go only: stdlib imports
+// The fact tables (pkg.go, gen_clear.go, gen_casts.go, gen_effects.go,
+// gen_layout.go, gen_template.go) are computed from the whole package as
+// loaded by go/packages (no build tags, no tests, linux/amd64), again with
+// hard errors naming file:line for anything that cannot be classified.
+//
+// For Node4/Consts type checking is done offline on node4.go + node.go only: stdlib imports
 // are resolved from GOROOT source (importer "source"); errors located in
 // node.go (identifiers declared in files we do not load) are tolerated,
 // errors located in node4.go are fatal.
@@ -114,16 +121,27 @@ func run(repo, out string) {
 	// failure never leaves a half-updated pair of files behind.
 	node4 := genNode4(l)
 	consts := genConsts(l)
+	w := loadWorld(repo)
+	files := []struct{ name, content string }{
+		{"Node4.lean", node4},
+		{"Consts.lean", consts},
+		{"Clear.lean", genClear(w)},
+		{"Casts.lean", genCasts(w)},
+		{"Effects.lean", genEffects(w)},
+		{"Layout.lean", genLayout(w)},
+		{"Template.lean", genTemplate(w)},
+	}
 	if err := os.MkdirAll(out, 0o755); err != nil {
 		failf("%v", err)
 	}
-	emit(filepath.Join(out, "Node4.lean"), []byte(node4))
-	emit(filepath.Join(out, "Consts.lean"), []byte(consts))
+	for _, f := range files {
+		emit(filepath.Join(out, f.name), []byte(f.content))
+	}
 }
 
 func main() {
 	repo := flag.String("repo", "/repo", "go-art working tree to translate from")
-	out := flag.String("out", "", "directory receiving Node4.lean and Consts.lean")
+	out := flag.String("out", "", "directory receiving the generated .lean files")
 	flag.Parse()
 	if *out == "" || flag.NArg() != 0 {
 		fmt.Fprintln(os.Stderr, "usage: extract -repo <go-art tree> -out <dir>")
